@@ -1,10 +1,12 @@
 /-
 Driver engine `robust` (C16): op `parse` — AST summary ↦ possible outcome classes of
 sql.Parse / sql.TableFor / Fields.Get; op `insert` — payload class sequence ↦ which payloads
-are rejected, skipped, ingested, and the table content afterwards.
+are rejected, skipped, ingested, and the table content afterwards; op `lex` — the bytes of a
+query text ↦ the fate of sqlparser's tokenizer (ends | loops) and the pre-scan's verdict.
 -/
 import ZenoModel.Driver.Codec
 import ZenoModel.Model.SqlDispatch
+import ZenoModel.Model.SqlLex
 
 namespace Zeno.Drv
 open Lean Zeno.Sql
@@ -153,6 +155,15 @@ def robustEngine (j : Json) : R Json := do
         | .wraps => ("wraps", 0)
         | .divZero => ("divZero", 0)
       pure (Json.mkObj [("outcome", Json.str name), ("n", Json.num (Int.ofNat n))])
+  | "lex" =>
+      -- the two lexers of sql.Parse on one text (bytes 0..255), fuel = length + 1 (never exhausted: lexer_fuel_suffices)
+      let bytes ← (← arr j "bytes").toList.mapM (fun b => b.getNat?)
+      let s : Lex.Str := bytes.map Char.ofNat
+      let verdict (o : Option Bool) (yes no : String) : String :=
+        match o with | some true => yes | some false => no | none => "fuel"
+      pure (Json.mkObj [
+        ("tok", Json.str (verdict (Lex.tokAll (s.length + 1) true s) "ends" "loops")),
+        ("pre", Json.str (verdict (Lex.preAll (s.length + 1) true s) "accepts" "rejects"))])
   | op => throw s!"robust: unknown op {op}"
 
 end Zeno.Drv
